@@ -817,12 +817,8 @@ META = {
     ],
     "not_decided": [
         "that the hops COMPOSE over several words and containers (history induction, paper); liveness (a queued task is eventually run: C02)",
-        "the remaining U5 hops: thread_queue::create_thread, add_new, destroy_thread, cleanup_terminated_locked, recycle_thread / "
-        "create_thread_object and the local_priority_queue_scheduler wrappers (not done for lack of time). Observation while reading: "
-        "destroy_thread pushes to terminated_items_ BEFORE ++terminated_items_count_, i.e. that counter transiently under-approximates, "
-        "the opposite discipline of work_items_count_",
         "the other scheduling policies (local_queue, shared_priority, thread_queue_mc, queue_holder_*), the lock-free containers "
-        "themselves (C17 covers contiguous_index_queue only), context switching / stacks (C12), weak-memory effects (A-SC)",
+        "themselves (C17: contiguous_index_queue and the per-step contracts of deque.hpp; moodycamel ConcurrentQueue unverified), context switching / stacks (C12), weak-memory effects (A-SC)",
         "set_active_state (only its call of set_thread_state matters for the word), create_work / create_thread paths",
     ],
 }
